@@ -15,6 +15,7 @@ VERIF = mir.VERIF
 
 # property -> list of rule modules (each has run(ctx)); shared modules implement dependencies between properties
 PROPERTIES = {
+    'C15': ['c15'],
     'C20': ['c20'],
 }
 
@@ -57,8 +58,12 @@ def run_property(pid, tier, repo, seed):
             known_hit.append((key, open_keys[key]))
         else:
             new_viol.append((key, insts))
-    vdir = os.path.join(VERIF, 'evidence', 'violations')
+    evdir = os.path.join(VERIF, 'evidence') if os.path.abspath(repo) == '/repo' else os.path.join(VERIF, 'evidence', 'scratch')
+    vdir = os.path.join(evdir, 'violations')
     os.makedirs(vdir, exist_ok=True)
+    for old in os.listdir(vdir):
+        if old.startswith(pid + '-'):
+            os.remove(os.path.join(vdir, old))
     for key, kf in known_hit:
         print('KNOWN-FINDING: property=%s %s %s' % (pid, key, kf.get('what', '')))
     for key, insts in new_viol:
@@ -103,8 +108,8 @@ def run_property(pid, tier, repo, seed):
         'wall_s': round(time.time() - t0, 2),
         'violations': len(new_viol),
     }
-    os.makedirs(os.path.join(VERIF, 'evidence'), exist_ok=True)
-    with open(os.path.join(VERIF, 'evidence', pid + '.json'), 'w') as f:
+    os.makedirs(evdir, exist_ok=True)
+    with open(os.path.join(evdir, pid + '.json'), 'w') as f:
         json.dump(ev, f, indent=1, default=str)
     print('%s: %d rule instances, %d obligations (%d discharged), %d new violations, %d known findings, %.1fs' % (
         pid, n_inst, ctx.stats['obligations'], ctx.stats['discharged'], len(new_viol), len(known_hit), time.time() - t0))
